@@ -1099,6 +1099,20 @@ impl<'a> RepositoryUpdate<'a> {
             }
         }
 
+        // The remaining deltas must lead from our serial to the notified
+        // serial one step at a time. Otherwise the list has gaps or
+        // repetitions and applying it would not reproduce the server state.
+        let mut expected = Some(serial);
+        for delta in deltas {
+            if Some(delta.serial()) != expected {
+                self.log.debug(format_args!(
+                    "Delta list is not contiguous."
+                ));
+                return Err(SnapshotReason::BadDeltaSet)
+            }
+            expected = delta.serial().checked_add(1);
+        }
+
         if deltas.len() > self.collector.config.max_delta_count {
             self.log.debug(format_args!(
                 "Too many delta steps required ({})", deltas.len()
